@@ -145,6 +145,15 @@ def check_main(prop, tier, engine, engine_name, families, level, rule, assumptio
         t1 = time.time()
         runs = run_family(engine, engine_name_f, fam, n, seed, pool, tier)
         t2 = time.time()
+        # determinism spot check inside every run: re-execute the first plans with another worker count;
+        # the traces must be identical (a check whose runs do not replay is not believed)
+        k = min(len(runs), 12 if tier == 'quick' else 60)
+        again = core.pmap(engine_name_f, [r[0] for r in runs[:k]], limit=180, njobs=4)
+        for (plan0, st0, tr0), (st1, tr1) in zip(runs[:k], again):
+            if st0 == 'ok' and st1 == 'ok':
+                stats.probe('runs_re_executed_identically' if core.sha(tr0) == core.sha(tr1) else 'runs_diverged')
+                if core.sha(tr0) != core.sha(tr1):
+                    rep.add_harness('non-deterministic run: %s seed=%d' % (fam, plan0['seed']))
         if hasattr(engine, 'before_oracle'):
             engine.before_oracle(runs)
             print('  executed in %.1fs, references in %.1fs' % (t2 - t1, time.time() - t2))
